@@ -1,7 +1,7 @@
 (* JsonProofs.v — the GRL tree the JSON translator emits has, on every fact
    state, the value of the JSON operator tree with operands grouped exactly as
-   they are nested (brackets are semantically transparent; a one-operand "not"
-   over an operator object is logical negation). *)
+   they are nested (brackets are semantically transparent; a lone operand of
+   "not" is logically negated, two or more are compared with !=). *)
 From Grule Require Import Base Values Syntax Lexer Parser GrlPrint EngineAbs Facts Eval Fresh JsonRule.
 Open Scope Z_scope.
 
@@ -9,21 +9,6 @@ Fixpoint any_xop (l : jxs) : bool :=
   match l with XNil => false | XCons (XOp _ _) _ => true | XCons _ l' => any_xop l' end.
 
 Fixpoint jxs_len (l : jxs) : nat := match l with XNil => O | XCons _ l' => S (jxs_len l') end.
-
-(* outside the region of finding D13: a "not" with two or more operands has no operator object among them *)
-Fixpoint sem_ok (x : jx) : bool :=
-  match x with
-  | XOp o args =>
-      sem_oks args &&
-      match o with
-      | JNe => Nat.leb (jxs_len args) 1 || negb (any_xop args)
-      | _ => true
-      end
-  | XCall _ args => sem_oks args
-  | _ => true
-  end
-with sem_oks (l : jxs) : bool :=
-  match l with XNil => true | XCons x l' => sem_ok x && sem_oks l' end.
 
 Section Sem.
 Variable meth : list (string * fval) -> string -> list val -> res (option val * list (string * fval)).
@@ -67,62 +52,66 @@ Proof.
   destruct h; cbn [call_atom]; rewrite !(fresh_atom_unfold meth fx (_ _ _)); try rewrite !(fresh_atom_unfold meth fx (AMethod _ _ _)); rewrite H; reflexivity.
 Qed.
 
+(* negating a number leaves it as it is (Eval.negate only touches booleans): the translator
+   does not bracket a lone number operand of "not", the meaning is the same *)
+Lemma neg_num_transparent : forall fx z,
+  fe fx (EParen true (EAtom (const_atom_n z))) = fe fx (EAtom (const_atom_n z)).
+Proof.
+  intros. rewrite (fresh_expr_unfold meth fx (EParen true _)), (fresh_expr_unfold meth fx (EAtom _)).
+  unfold const_atom_n. rewrite (fresh_atom_unfold meth fx (AConst _)). reflexivity.
+Qed.
+
 Definition sem_x (x : jx) : Prop :=
-  sem_ok x = true -> forall deep fx, fe fx (x_top deep x) = fe fx (jtree x).
+  forall deep fx, fe fx (x_top deep x) = fe fx (jtree x).
 
 Definition sem_l (l : jxs) : Prop :=
-  sem_oks l = true ->
   (forall fx, map (fe fx) (xs_elems l) = map (fe fx) (jtrees l)) /\
-  (forall neg fx, neg = false \/ any_xop l = false -> map (fe fx) (xs_opnds neg l) = map (fe fx) (jtrees l)) /\
+  (forall fx, map (fe fx) (xs_opnds false l) = map (fe fx) (jtrees l)) /\
+  (forall fx, map (fe fx) (xs_opnds true l) = map (fe fx) (map (EParen true) (jtrees l))) /\
   (forall fx, fresh_args meth fx (xs_args l) = fresh_args meth fx (jargs l)).
 
 Lemma json_sem_mut : (forall x, sem_x x) /\ (forall l, sem_l l).
 Proof.
-  apply jx_mutind; unfold sem_x, sem_l; intros; cbn [x_top jtree sem_ok sem_oks] in *; try reflexivity.
+  apply jx_mutind; unfold sem_x, sem_l; intros; cbn [x_top jtree] in *; try reflexivity.
   - (* operator *)
-    apply andb_true_iff in H0 as [Hl Ho]. destruct (H Hl) as (He & Hop & _).
+    destruct H as (He & Hop & Hneg & _).
     destruct (is_compound o) eqn:Ec.
     + assert (J : fe fx (join_exprs (jop_op o) (xs_elems args)) = fe fx (jtree (XOp o args))).
       { cbn [jtree]. destruct o; try discriminate; apply join_cong; apply He. }
       destruct deep; [rewrite paren_transparent|]; exact J.
-    + destruct o; try discriminate; cbn [jtree];
-        try (apply join_cong; apply Hop; left; reflexivity).
+    + destruct o; try discriminate; cbn [jtree neg_flag];
+        try (apply join_cong; apply Hop).
       (* not *)
       destruct args as [|y rest]; [reflexivity|].
-      assert (Hgen : Nat.leb (jxs_len (XCons y rest)) 1 || negb (any_xop (XCons y rest)) = true -> any_xop (XCons y rest) = false \/ rest = XNil).
-      { intros Hh. destruct rest; [right; reflexivity|]. left. cbn [jxs_len Nat.leb orb] in Hh. apply negb_true_iff in Hh. exact Hh. }
-      destruct y; try (apply join_cong; apply Hop; right;
-                       destruct (Hgen Ho) as [Hg|Hg]; [exact Hg|rewrite Hg; reflexivity]).
       destruct rest as [|z l].
-      * cbn [xs_opnds join_exprs fold_bin]. apply paren_neg_cong.
-        specialize (Hop false fx (or_introl eq_refl)). cbn [xs_opnds jtrees map] in Hop.
-        inversion Hop as [Hy]. rewrite paren_transparent in Hy. exact Hy.
-      * destruct (Hgen Ho) as [Hg|Hg]; [cbn [any_xop] in Hg; discriminate|discriminate].
+      * (* a lone operand: negated *)
+        specialize (Hneg fx). cbn [jtrees map] in Hneg.
+        destruct (xs_opnds true (XCons y XNil)) as [|e0 [|e1 es]] eqn:E; try discriminate.
+        cbn [map] in Hneg. cbn [join_exprs fold_bin]. congruence.
+      * (* two or more operands: the != operator *)
+        apply join_cong. apply Hop.
   - (* call *)
-    destruct (H H0) as (_ & _ & Ha). apply atom_args_cong. apply Ha.
+    destruct H as (_ & _ & _ & Ha). apply atom_args_cong. apply Ha.
   - (* nil *)
     repeat split; reflexivity.
   - (* cons *)
-    apply andb_true_iff in H1 as [Hx Hl]. specialize (H Hx). destruct (H0 Hl) as (He & Hop & Ha).
+    destruct H0 as (He & Hop & Hneg & Ha).
     repeat split.
     + intros fx. cbn [xs_elems jtrees map]. rewrite (H true fx), He. reflexivity.
-    + intros neg fx Hn. cbn [xs_opnds jtrees map].
-      assert (Hn' : neg = false \/ any_xop l = false).
-      { destruct Hn as [Hn|Hn]; [left; assumption|]. right. destruct x; cbn [any_xop] in Hn; try assumption. discriminate. }
-      rewrite (Hop neg fx Hn'). f_equal.
-      destruct x; try apply (H false fx).
-      destruct Hn as [->|Hn]; [|cbn [any_xop] in Hn; discriminate].
-      rewrite paren_transparent. apply (H false fx).
+    + intros fx. cbn [xs_opnds jtrees map]. rewrite (Hop fx). f_equal.
+      destruct x; try apply (H false fx). rewrite paren_transparent. apply (H false fx).
+    + intros fx. cbn [xs_opnds jtrees map]. rewrite (Hneg fx). f_equal.
+      destruct x; try (apply paren_neg_cong; apply (H false fx)).
+      cbn [x_top jtree]. symmetry. apply neg_num_transparent.
     + intros fx. cbn [xs_args jargs]. rewrite (fresh_args_unfold meth fx (ECons _ (xs_args l))),
         (fresh_args_unfold meth fx (ECons _ (jargs l))), (H false fx), Ha. reflexivity.
 Qed.
 
 (* the condition of the translated rule has the value of the JSON operator tree, on every fact state *)
-Theorem json_sem : forall x, sem_ok x = true -> forall fx, fe fx (x_top false x) = fe fx (jtree x).
-Proof. intros x H fx. apply (proj1 json_sem_mut x H false fx). Qed.
+Theorem json_sem : forall x fx, fe fx (x_top false x) = fe fx (jtree x).
+Proof. intros x fx. apply (proj1 json_sem_mut x false fx). Qed.
 
-Theorem json_cond_sem : forall w, match w with WPlain _ => true | WTree x => sem_ok x end = true ->
-  forall fx, fe fx (cond_of w) = fe fx (cond_tree w).
-Proof. intros [e|x] H fx; [reflexivity|]. apply json_sem. exact H. Qed.
+Theorem json_cond_sem : forall w fx, fe fx (cond_of w) = fe fx (cond_tree w).
+Proof. intros [e|x] fx; [reflexivity|]. apply json_sem. Qed.
 
 End Sem.
